@@ -292,6 +292,13 @@ def _gen_cases(tier, rng):
                                       "cols": [mixed_col(ks[0], a), mixed_col(ks[1], b), mixed_col(ks[2], c), mixed_col(ks[0], b)],
                                       "_n": cnt})
 
+    # ---- columns longer than the library's fixed internal block size (1 << 20 rows): runs ending exactly at, one before and
+    #      one after a multiple of it. Given run-length encoded; no Lean model run (a million-row list), the oracle decides.
+    B = 1 << 20
+    for runs in ([[0, B], [1, 5]], [[0, B - 1], [1, 6]], [[0, B + 1], [1, 4]], [[3, 7], [4, B - 7], [5, B], [5, 2], [6, 1]]):
+        for ent in ("field", "session_field", "ndarray", "session_ndarray"):
+            cnt += 1
+            cases.append({"op": "spans_big", "runs": runs, "dtype": ["int64", "int32"][cnt % 2], "entry": ent, "_n": cnt})
     # ---- reductions ------------------------------------------------------------------------------------------------
     nmax = 4 if quick else 5
     for n in range(1, nmax + 1):
@@ -477,6 +484,8 @@ def to_model(case):
         return {"op": op, "cols": [col_to_ints(c) for c in case["cols"]], "thr": case["thr"]}
     if op == "spans_session_fields":
         return {"op": op, "cols": [col_to_model(c) for c in case["cols"]], "thr": case.get("thr", DEFAULT_THR)}
+    if op == "spans_big":
+        return {"op": "int64_index_length"}      # no model run for million-row columns (the answer is ignored)
     if op in ("spans_by_spans", "spans_indexed_raw"):
         return {k: v for k, v in case.items() if not k.startswith("_")}
     if op == "apply":
@@ -568,6 +577,14 @@ def impl(case):
 
 def _impl(e, case, op):
     np, ops, s = e["np"], e["ops"], e["s"]
+    if op == "spans_big":
+        a = np.repeat(np.array([r[0] for r in case["runs"]], dtype=case["dtype"]), [r[1] for r in case["runs"]])
+        entry = case["entry"]
+        if entry in ("field", "session_field"):
+            f = e["fields"].NumericMemField(s, case["dtype"])
+            f.data.write(a)
+            return spans_out(f.get_spans() if entry == "field" else s.get_spans(f))
+        return spans_out(ops.get_spans_for_field(a) if entry == "ndarray" else s.get_spans(field=a))
     if op == "spans_field":
         col, entry = case["col"], case["entry"]
         if entry == "field":
@@ -692,6 +709,19 @@ def check_spec(case, io, mode):
         return None                      # the property speaks about equal-length columns and well-formed spans only
     if isinstance(io, dict) and "skipped" in io:
         return None
+    if op == "spans_big":
+        exp, pos, prev = [0], 0, None
+        for v, k in case["runs"]:
+            if k and prev is not None and v != prev:
+                exp.append(pos)
+            if k:
+                prev = v
+            pos += k
+        if pos:
+            exp.append(pos)
+        if "err" in io:
+            return f"raised {io['err']} ({io.get('msg', '')}) on a column of {pos} rows"
+        return None if io["spans"] == exp else f"spans {io['spans'][:8]} of a {pos}-row column are not the maximal runs {exp}"
     if op in ("spans_field", "spans_2arrays", "spans_session_arrays", "spans_session_fields", "spans_multi"):
         cols = [case["col"]] if op == "spans_field" else case["cols"]
         if len({col_len(c) for c in cols}) != 1:
@@ -746,6 +776,8 @@ def match_finding(case, io, mode):
 
 def compare(case, io, mo, mode):
     if isinstance(io, dict) and "skipped" in io:
+        return None
+    if case["op"] == "spans_big":
         return None
     if case["op"] == "int64_index_length":
         return None if io.get("value") == mo.get("ok") else f"utils.INT64_INDEX_LENGTH={io} model={mo}"
@@ -810,6 +842,8 @@ def runs_info(rows):
 
 def nontrivial(case, mo):
     op = case["op"]
+    if op == "spans_big":
+        return True
     if case.get("_malformed") or op in ("int64_index_length",):
         return False
     if op in ("spans_field", "spans_2arrays", "spans_session_arrays", "spans_session_fields", "spans_multi"):
@@ -879,3 +913,7 @@ LEVEL_NOTE = ("Not proved, only validated by the correspondence run: the "
               "as-found behaviour - fields after the second ignored, IndexError for a single one - is kept as witness theorem "
               "Witness.C08.nc08d_third_field_ignored). The theorems speak about the code WITH the five fix patches in fixes/ applied; "
               "on the unpatched tree the corpus cases D18/D19/NC08a/NC08b/NC08c/NC08d fail and are reported as VIOLATIONs with replay.")
+
+# the TRANSLATED span kernels (Gen/Kernels.lean) are executed against the real kernels on cases derived from the ones above
+from checks.harness import genkernels  # noqa: E402
+genkernels.install(globals(), "C08")
